@@ -268,6 +268,7 @@ def c17_rf2(run):
     rf_alloc.rf152(run)
     rf_alloc.rf164(run)
     rf_alloc.rf181(run)
+    rf_alloc.rf185(run)
     rf_proto.rf163(run)
     rf_proto.rf165(run)
     run.min_instances('RF78b', 20)
